@@ -49,12 +49,13 @@ Inductive eresult (P : Type) :=
 | ECrash.                   (* RuntimeError out of the consumer, or a state the proofs show unreachable *)
 Arguments EEvent {P}. Arguments ECancelled {P}. Arguments EAborted {P}. Arguments EError {P}. Arguments ECrash {P}.
 
-Inductive elabel := ERecvPacket | EEnv (l : label).
+Inductive elabel := ERecvPacket | ESock (l : label).
 
 Section Endpoint.
   Context {P C : Type}.
   Variable S : smachine P C.
   Variable into : bool.            (* the transport call the receiver uses: recv_into (buffered) or recv (copying) *)
+  Variable latching : bool.        (* endpoints keep an _eof_reached latch; the server request receivers do not *)
 
   Record estate := emk {
     sk : st;                       (* protocol + reader task + loop (fixed protocol: step true) *)
@@ -88,7 +89,7 @@ Section Endpoint.
     else
       match sdrain S (ec es) with
       | (c', RStop) =>
-          if elatch es then finish_call es (sk es) c' EAborted
+          if latching && elatch es then finish_call es (sk es) c' EAborted
           else ehead es (sk es) c'
       | (c', r) => finish_call es (sk es) c' (EEvent r)
       end.
@@ -116,9 +117,9 @@ Section Endpoint.
   Definition estep (es : estate) (l : elabel) : estate :=
     match l with
     | ERecvPacket => erecv_packet es
-    | EEnv LWake => ewake es
-    | EEnv (LRecv _) | EEnv (LRecvInto _) => es          (* only recv_packet talks to the transport *)
-    | EEnv l' => emk (fst (step true (sk es) l')) (ec es) (einrecv es) (elatch es) (eres es)
+    | ESock LWake => ewake es
+    | ESock (LRecv _) | ESock (LRecvInto _) => es          (* only recv_packet talks to the transport *)
+    | ESock l' => emk (fst (step true (sk es) l')) (ec es) (einrecv es) (elatch es) (eres es)
     end.
 
   Fixpoint erun (es : estate) (ls : list elabel) : estate :=
